@@ -199,6 +199,20 @@ def catalogue(chk, deb, btcc, tap):
         for extra in (["0"], [], ["0", "--sig=" + "11" * 64]):
             sigarg = [a for a in extra if a.startswith("--")]
             cli("tap-tx-shapes", "tap", sigarg + ["--tx=" + tx_.hex(), "--txin=" + fund_.hex(), GKx.hex(), "1", "0x51"] + [a for a in extra if not a.startswith("--")], stdout_tty=True)
+    # ---- tap: the funded output is not a taproot output although its program is the output key (witness v0 / v2 with the same 32 bytes, a
+    #      bare push of it); script and spend arguments whose inline function throws
+    for spk_alt in (b"\x00\x20" + q_, b"\x52\x20" + q_, b"\x20" + q_, b"\x51\x21" + q_ + b"\x00", b"\xa9\x14" + q_[:20] + b"\x87"):
+        fund_ = btc.Tx(version=2, vin=[btc.TxIn(bytes(32), 0, b"", 0xffffffff)], vout=[btc.TxOut(100000, spk_alt)])
+        tx_ = btc.Tx(version=2, vin=[btc.TxIn(fund_.txid(), 0, b"", 0xfffffffd)], vout=[btc.TxOut(90000, b"\x00\x14" + bytes(20))])
+        for extra in (["0"], [], ["0", "--sig=" + "11" * 64]):
+            sigarg = [a for a in extra if a.startswith("--")]
+            cli("tap-not-taproot-output", "tap", sigarg + ["--tx=" + tx_.hex(), "--txin=" + fund_.hex(), GKx.hex(), "1", "0x51"] + [a for a in extra if not a.startswith("--")], stdout_tty=True)
+            cli("tap-not-taproot-output", "tap", sigarg + ["--tx=" + tx_.hex(), "--txin=" + fund_.hex(), GKx.hex(), "2", "0x51", "0x52"] + [a for a in extra if not a.startswith("--")])
+    for bad in ("int(0x010203040506)", "int(0x0102030405)", "sha256(int(0x01020304050607))", "hex(int(0x0000000000))"):
+        cli("tap-arg-function-throws", "tap", [GKx.hex(), "1", bad])
+        cli("tap-arg-function-throws", "tap", [GKx.hex(), "2", "0x51", bad, "1"])
+        cli("tap-arg-function-throws", "tap", [GKx.hex(), "1", "0x51", "0", bad])
+        cli("tap-arg-function-throws", "tap", [GKx.hex(), "1", "0x51", "0", "0x01", bad], stdout_tty=True)
     # ---- tap argument shapes
     K = "79be667ef9dcbbac55a06295ce870b07029bfcdb2dce28d959f2815b16f81798"
     for a in [[K], [K, "1"], [K, "0", "51"], [K, "1025", "51"], [K, "2", "51"], [K, "1", "51", "1"], [K, "1", "51", "0"], [K, "1", "51", "0", "0x"], [K[:-2], "1", "51"], [K + "00", "1", "51"],
